@@ -222,3 +222,56 @@ Theorem C03_source_tie_projection_parameters : forall (el : ellipsoid (T:=R)),
      = (let q := tangent_projection ROps p el in (p_lon0 q, p_n q, p_c q, p_xs q, p_ys q))).
 Proof. intros el. exact (conj (fun p => tie_secantProjection p el) (fun p => tie_tangentProjection p el)). Qed.
 Print Assumptions C03_source_tie_projection_parameters.
+
+(* ==== SOURCE TIE OF THE CONSTRUCTORS (translator translate/tr_C03_ctor.py, library translate/imptrans.py) ====
+   The four constructors of LambertConverter are regenerated on every run from the clang AST of the current
+   src/geodesy/LambertConverter.cpp (gen/SrcLambertCtor.v) as the tuple of the data members they leave, by name:
+   (c_, e_, longitude0_, n_, xs_, ys_); the class must have exactly these six double members and these four constructors.
+   A converter built from secant / tangent parameters and an ellipsoid holds the projection constants
+   computeProjectionParameters(parameters, ellipsoid) and the ellipsoid's FIRST eccentricity el_e — the pair (pr, e) all
+   theorems above are about.  Every numeric dictionary.  (lambert_fields pr e = (p_c pr, e, p_lon0 pr, p_n pr, p_xs pr, p_ys pr):
+   SrcTieC03Ctor.v.) *)
+From Romea Require Import SrcTieC03Ctor.
+From Romea.gen Require Import SrcLambertCtor.
+
+Theorem C03_source_tie_constructors : forall T (N : NumOps T) (sp : secant_params (T:=T)) (tp : tangent_params (T:=T)) (el : ellipsoid (T:=T)),
+  src_ctor_secant N (secant_projection N) (tangent_projection N) sp el = lambert_fields (secant_projection N sp el) (el_e el) /\
+  src_ctor_tangent N (secant_projection N) (tangent_projection N) tp el = lambert_fields (tangent_projection N tp el) (el_e el).
+Proof. intros T N. exact (tie_constructors N). Qed.
+Print Assumptions C03_source_tie_constructors.
+
+(* the two plain constructors store their arguments, each in its own member *)
+Theorem C03_source_tie_plain_constructors : forall T (N : NumOps T) Fs Ft (pr : projection (T:=T)) lon0 n c xs ys e,
+  src_ctor_scalars N Fs Ft lon0 n c xs ys e = lambert_fields (mkProj lon0 n c xs ys) e /\
+  src_ctor_projection N Fs Ft pr e = lambert_fields pr e.
+Proof.
+  intros T N Fs Ft pr lon0 n c xs ys e.
+  exact (conj (tie_ctor_scalars N Fs Ft lon0 n c xs ys e) (tie_ctor_projection N Fs Ft pr e)).
+Qed.
+Print Assumptions C03_source_tie_plain_constructors.
+
+(* end to end over the reals: the source's toLambert on the members the source's constructors store is the model's
+   toLambert (projection constants of the model, eccentricity el_e) *)
+Theorem C03_source_tie_constructed_converter : forall (el : ellipsoid (T:=R)) (w : wgs84 (T:=R)),
+  (forall sp : secant_params (T:=R),
+     let '(c, e, lon0, n, xs, ys) := src_ctor_secant ROps (secant_projection ROps) (tangent_projection ROps) sp el in
+     src_toLambert ROps c e lon0 n (w_lat w) (w_lon w) xs ys =
+     (let v := toLambert ROps (secant_projection ROps sp el) (el_e el) w in (v2x v, v2y v))) /\
+  (forall tp : tangent_params (T:=R),
+     let '(c, e, lon0, n, xs, ys) := src_ctor_tangent ROps (secant_projection ROps) (tangent_projection ROps) tp el in
+     src_toLambert ROps c e lon0 n (w_lat w) (w_lon w) xs ys =
+     (let v := toLambert ROps (tangent_projection ROps tp el) (el_e el) w in (v2x v, v2y v))).
+Proof. exact tie_constructed_toLambert. Qed.
+Print Assumptions C03_source_tie_constructed_converter.
+
+Theorem C03_source_tie_constructed_converter_inverse : forall fuel (el : ellipsoid (T:=R)) (v : vec2 (T:=R)),
+  (forall sp : secant_params (T:=R),
+     let '(c, e, lon0, n, xs, ys) := src_ctor_secant ROps (secant_projection ROps) (tangent_projection ROps) sp el in
+     src_lambertToWGS84 ROps fuel c e lon0 n (v2x v) (v2y v) xs ys =
+     match toWGS84 ROps fuel (secant_projection ROps sp el) (el_e el) v with None => None | Some w => Some (w_lat w, w_lon w) end) /\
+  (forall tp : tangent_params (T:=R),
+     let '(c, e, lon0, n, xs, ys) := src_ctor_tangent ROps (secant_projection ROps) (tangent_projection ROps) tp el in
+     src_lambertToWGS84 ROps fuel c e lon0 n (v2x v) (v2y v) xs ys =
+     match toWGS84 ROps fuel (tangent_projection ROps tp el) (el_e el) v with None => None | Some w => Some (w_lat w, w_lon w) end).
+Proof. exact tie_constructed_toWGS84. Qed.
+Print Assumptions C03_source_tie_constructed_converter_inverse.
